@@ -286,6 +286,8 @@ def run(ctx):
     # frame integrity: a frame whose announced length is not its real length, or that is abandoned half written, makes the bytes
     # that follow (usually another stream's) parse under the wrong id
     C01.r1_encode_cast(ctx)
+    from . import C04
+    C04.r1_waste_frames(ctx)
     C01.r2_chunking(ctx)
     C01.r9_complete_writes(ctx)
     C11.r7_cancellation(ctx)
